@@ -167,3 +167,25 @@ def plus_decoders(ctx, rule):
     # framing is wrong does not reach the client with the same body
     from . import c31
     c31.responder_framing(ctx)
+    response_owns_its_body(ctx)
+
+
+def response_owns_its_body(ctx):
+    """Respondent.parseBody refills one bytearray in place for every response; what Patron.serviceResponse puts into the
+    response entry under 'body' (and 'headers') must therefore be a copy, or earlier responses change when later ones arrive"""
+    from ..rules import _fresh
+    ctx.rule("T4-alias", "Patron.serviceResponse stores copies of the respondent's body and headers in the response entry")
+    f = ctx.cls("aio.http.clienting", "Patron").own_method("serviceResponse")
+    V = FuncView(ctx, f)
+    n = 0
+    for nd in V.cfg.nodes:
+        for t in V.cfg.walk_node(nd):
+            if isinstance(t, ast.Tuple) and len(t.elts) == 2 and const_str(t.elts[0]) in ("body", "headers") and \
+                    "respondent" in src(V.sym(t.elts[1], nd)):
+                n += 1
+                v = V.sym(t.elts[1], nd)
+                ok = _fresh(v) or (isinstance(v, ast.Call) and (call_name(v) or "").split(".")[-1] in ("copy", "deepcopy", "bytes", "bytearray", "lodict", "odict"))
+                ctx.check(ok, "T4-alias", t, "response[%r] = %s" % (const_str(t.elts[0]), src(v)[:50]),
+                          "the respondent reuses (clears and refills in place) the object stored here: a response read after the next "
+                          "one was parsed shows the later response's %s" % const_str(t.elts[0]))
+    ctx.floor("T4-alias:entries", n, 2)
